@@ -49,7 +49,15 @@ def verify_functions(src, quals, tags=None, interface_factory=None, timeout=30, 
             oor.append((qual, '-', 'function no longer exists in the source'))
             continue
         for model, variant in [(m, v) for m in c.stream_models for v in c.variants]:
-            vr = c.verify(src, make, model, variant)
+            try:
+                vr = c.verify(src, make, model, variant)
+            except Exception as e:
+                # an internal error of the executor on THIS function (typically on changed code that leaves the modelled subset in an
+                # unforeseen way) makes the function undecided; it must not take the whole check down
+                import traceback
+                oor.append((qual, model if variant is None else '%s,%s' % (model, variant), 'executor error %s: %s (%s)' % (type(e).__name__, e, traceback.format_exc().strip().splitlines()[-3].strip()[:120])))
+                stats['functions'] += 1
+                continue
             stats['functions'] += 1
             if variant is not None:
                 model = '%s,%s' % (model, variant)
